@@ -82,7 +82,8 @@ def graph_faults(ctx):
                 it['anno'] = ['1', '0.5', rng.choice(['d', '3', 'x'])] + [e for e in it['anno'] if '=' in e and e[0] not in 'qw']
                 want = 'syntax'
             else:
-                it['anno'] = [e for e in it['anno'] if '=' in e and e[0] not in 'qw'] + [rng.choice(['w=abc', 'q=a', 'q=1x', 'w=--1', 'q=', 'w=1e'])]
+                it['anno'] = [e for e in it['anno'] if '=' in e and e[0] not in 'qw'] + [rng.choice(
+                    ['w=abc', 'q=a', 'q=1x', 'w=--1', 'q=', 'w=1e', 'w=1/0', 'q=1/3', 'w=2/0.0', 'q=1,5', 'w=1..2', 'q=0x10'])]
                 want = 'type'
         s = '{' + gen_graph.render(bad) + '}'
         case = {'kind': 'graph-fault', 'fault': kind, 's': s}
@@ -95,7 +96,8 @@ def resolve_faults(ctx):
     for _ in range(ctx.budget(200, 4000)):
         c = gen_mol.cut_case(rng, nmax=8)
         kind = rng.choice(['missing-fragment', 'missing-fragment-zero-edge', 'missing-fragment-named-like-virtual',
-                           'missing-fragment-ring-bond', 'atom-two-eq', 'atom-nonnumeric', 'atom-surplus'])
+                           'missing-fragment-ring-bond', 'atom-two-eq', 'atom-nonnumeric', 'atom-surplus',
+                           'fault-in-repeated-definition'])
         s = c['s']
         base, frags = s.split('}.', 1)
         if kind == 'missing-fragment':
@@ -152,6 +154,16 @@ def resolve_faults(ctx):
             other = rng.choice(names)
             bad = base.replace('[#%s]' % victim, '[#NOFRAG].9', 1) + '.[#%s]9' % other + '}.' + frags
             want = 'syntax'
+        elif kind == 'fault-in-repeated-definition':
+            # a name is defined a second time (the first definition is the one that counts) and the second text carries a
+            # faulty annotation: every definition that is written is read, so the fault is reported
+            names = re.findall(r'#(F\d+)=', frags)
+            if not names:
+                continue
+            anno, want = rng.choice([('w=abc', 'type'), ('w=1=2', 'syntax'), ('1;R;extra', 'syntax'), ('q=1/0', 'type')])
+            if anno.startswith('q='):
+                anno = 'w=' + anno[2:]
+            bad = base + '}.' + frags[:-1] + ',#%s=C[C;%s]C}' % (rng.choice(names), anno)
         else:
             # turn one plain carbon of a fragment into an annotated bracket atom with a faulty annotation
             pos = [m.start() for m in re.finditer(r'(?<![A-Za-z\[#])C(?![a-z])', frags)]
@@ -159,7 +171,7 @@ def resolve_faults(ctx):
             if not pos:
                 continue
             p = rng.choice(pos)
-            anno = {'atom-two-eq': rng.choice(['w=1=2', 'k=a=b']), 'atom-nonnumeric': rng.choice(['w=abc', 'w=1x']),
+            anno = {'atom-two-eq': rng.choice(['w=1=2', 'k=a=b']), 'atom-nonnumeric': rng.choice(['w=abc', 'w=1x', 'w=1/0', 'w=1/3']),
                     'atom-surplus': '1;R;extra'}[kind]
             bad = base + '}.' + frags[:p] + '[C;' + anno + ']' + frags[p + 1:]
             want = 'type' if kind == 'atom-nonnumeric' else 'syntax'
